@@ -11,6 +11,7 @@ import Gen.Guards.Det
 import Gen.Guards.FillersOK
 import Gen.Guards.LabelsOK
 import Gen.Guards.LeafOk
+import Gen.Guards.TextStable
 import Gen.Guards.TextStableC
 import Gen.Guards.WrapOK
 namespace PM.Family.C11
@@ -215,6 +216,235 @@ theorem fit_emits_valid_payload_of_inv (S : Schema) (hS : S ∈ domFamilySchemas
     (family_fillersOK _ (domFamily_sub _ hS)) (family_leafOk _ (domFamily_sub _ hS))
     (family_textStableC _ (domFamily_sub _ hS)) (family_closable _ (domFamily_sub _ hS)) doc f t sl hslv hattrs
     st h hend
+
+/-- `PM.C11.delete_emitOK` with its schema guards discharged for the bundled schema family -/
+theorem delete_emitOK (S : Schema) (hS : S ∈ familySchemas) (doc : Node) (f t : Nat) (hv : C01.Valid S doc)
+    (hattrs : S.nodeAttrsOK doc = true) (hft : f ≤ t) (st : Step)
+    (h : replaceStep S doc f t Slice.empty = .ok (some st)) :
+    EmitOK S doc st :=
+  PM.C11.delete_emitOK S (family_det _ hS) (family_fillersOK _ hS) (family_leafOk _ hS) doc f t hv hattrs hft st
+    h
+
+/-- `PM.C11.delete_valid` with its schema guards discharged for the bundled schema family -/
+theorem delete_valid (S : Schema) (hS : S ∈ familySchemas) (doc doc' : Node) (f t : Nat) (hv : C01.Valid S doc)
+    (hattrs : S.nodeAttrsOK doc = true) (hft : f ≤ t) (st : Step)
+    (h : replaceStep S doc f t Slice.empty = .ok (some st)) (ha : S.apply st doc = .ok doc') :
+    C01.Valid S doc' ∧ Kept (ftoks doc.kids) (ftoks doc'.kids) f t [] ∧
+    textUnits (ftoks doc'.kids) = textUnits ((ftoks doc.kids).take f) ++ textUnits ((ftoks doc.kids).drop t) :=
+  PM.C11.delete_valid S (family_det _ hS) (family_fillersOK _ hS) (family_leafOk _ hS) doc doc' f t hv hattrs
+    hft st h ha
+
+/-- `PM.C11.deleteRange_emitOK` with its schema guards discharged for the bundled schema family -/
+theorem deleteRange_emitOK (S : Schema) (hS : S ∈ familySchemas) (doc : Node) (f t : Nat) (hv : C01.Valid S doc)
+    (hattrs : S.nodeAttrsOK doc = true) (hft : f ≤ t) (st : Step)
+    (h : deleteRangeStep S doc f t = .ok (some st)) :
+    EmitOK S doc st :=
+  PM.C11.deleteRange_emitOK S (family_det _ hS) (family_fillersOK _ hS) (family_leafOk _ hS) doc f t hv hattrs
+    hft st h
+
+/-- `PM.C11.deleteRange_valid` with its schema guards discharged for the bundled schema family -/
+theorem deleteRange_valid (S : Schema) (hS : S ∈ familySchemas) (doc doc' : Node) (f t : Nat)
+    (hv : C01.Valid S doc) (hattrs : S.nodeAttrsOK doc = true) (hft : f ≤ t) (st : Step)
+    (h : deleteRangeStep S doc f t = .ok (some st)) (ha : S.apply st doc = .ok doc') :
+    C01.Valid S doc' ∧ Kept (ftoks doc.kids) (ftoks doc'.kids) f t [] ∧
+    textUnits (ftoks doc'.kids) = textUnits ((ftoks doc.kids).take f) ++ textUnits ((ftoks doc.kids).drop t) :=
+  PM.C11.deleteRange_valid S (family_det _ hS) (family_fillersOK _ hS) (family_leafOk _ hS) doc doc' f t hv
+    hattrs hft st h ha
+
+/-- `PM.C11.delete_total_valid` with its schema guards discharged for the bundled schema family -/
+theorem delete_total_valid (S : Schema) (hS : S ∈ familySchemas) (doc : Node) (f t : Nat) (hv : C01.Valid S doc)
+    (hdoc : C01.IsElem doc) (hattrs : S.nodeAttrsOK doc = true) (htop : S.isTextblockO (S.tyOf doc) = false)
+    (hft : f ≤ t) (ht : t ≤ fsize doc.kids) :
+    replaceStep S doc f t Slice.empty = .ok none ∨
+    ∃ st, replaceStep S doc f t Slice.empty = .ok (some st) ∧
+    (S.apply st doc = .error .failed ∨ S.apply st doc = .error .valueError ∨
+    ∃ doc', S.apply st doc = .ok doc' ∧ C01.Valid S doc' ∧ Kept (ftoks doc.kids) (ftoks doc'.kids) f t [] ∧
+    textUnits (ftoks doc'.kids) = textUnits ((ftoks doc.kids).take f) ++ textUnits ((ftoks doc.kids).drop t)) :=
+  PM.C11.delete_total_valid S (family_det _ hS) (family_fillersOK _ hS) (family_leafOk _ hS) doc f t hv hdoc
+    hattrs htop hft ht
+
+/-- `PM.C11.deleteRange_total_valid` with its schema guards discharged for the bundled schema family -/
+theorem deleteRange_total_valid (S : Schema) (hS : S ∈ familySchemas) (doc : Node) (f t : Nat)
+    (hv : C01.Valid S doc) (hdoc : C01.IsElem doc) (hattrs : S.nodeAttrsOK doc = true)
+    (htop : S.isTextblockO (S.tyOf doc) = false) (hft : f ≤ t) (ht : t ≤ fsize doc.kids) :
+    deleteRangeStep S doc f t = .ok none ∨
+    ∃ st, deleteRangeStep S doc f t = .ok (some st) ∧
+    (S.apply st doc = .error .failed ∨ S.apply st doc = .error .valueError ∨
+    ∃ doc', S.apply st doc = .ok doc' ∧ C01.Valid S doc' ∧ Kept (ftoks doc.kids) (ftoks doc'.kids) f t [] ∧
+    textUnits (ftoks doc'.kids) = textUnits ((ftoks doc.kids).take f) ++ textUnits ((ftoks doc.kids).drop t)) :=
+  PM.C11.deleteRange_total_valid S (family_det _ hS) (family_fillersOK _ hS) (family_leafOk _ hS) doc f t hv
+    hdoc hattrs htop hft ht
+
+/-- `PM.C11.replaceRange_valid_delete` with its schema guards discharged for the bundled schema family -/
+theorem replaceRange_valid_delete (S : Schema) (hS : S ∈ familySchemas) (doc doc' : Node) (f t : Nat)
+    (sl : Slice) (hsz : (sl.size == 0) = true) (cs : List (Nat × Nat × Slice)) (hv : C01.Valid S doc)
+    (hattrs : S.nodeAttrsOK doc = true) (hft : f ≤ t) (h : replaceRangeCalls S doc f t sl = some cs)
+    (c : Nat × Nat × Slice) (hc : c ∈ cs) (st : Step) (hst : replaceStep S doc c.1 c.2.1 c.2.2 = .ok (some st))
+    (ha : S.apply st doc = .ok doc') :
+    C01.Valid S doc' ∧ Kept (ftoks doc.kids) (ftoks doc'.kids) f t [] ∧
+    textUnits (ftoks doc'.kids) = textUnits ((ftoks doc.kids).take f) ++ textUnits ((ftoks doc.kids).drop t) :=
+  PM.C11.replaceRange_valid_delete S (family_det _ hS) (family_fillersOK _ hS) (family_leafOk _ hS) doc doc' f t
+    sl hsz cs hv hattrs hft h c hc st hst ha
+
+/-- `PM.C11.insertInline_emitOK_partial` with its schema guards discharged for the bundled schema family -/
+theorem insertInline_emitOK_partial (S : Schema) (hS : S ∈ domFamilySchemas) (doc : Node) (f t : Nat)
+    (sl : Slice) (hsl : sl.inlineLeaves S = true) (hslv : sl.closedValid S = true) (hv : C01.Valid S doc)
+    (hattrs : S.nodeAttrsOK doc = true) (hft : f ≤ t) (st : Step) (h : replaceStep S doc f t sl = .ok (some st))
+    (hpa : AroundPayload S doc st) :
+    EmitOK S doc st :=
+  PM.C11.insertInline_emitOK_partial S (family_det _ (domFamily_sub _ hS))
+    (family_fillersOK _ (domFamily_sub _ hS)) (family_wrapOK _ (domFamily_sub _ hS))
+    (family_labelsOK _ (domFamily_sub _ hS)) (family_leafOk _ (domFamily_sub _ hS))
+    (family_textStableC _ (domFamily_sub _ hS)) (family_closable _ (domFamily_sub _ hS)) doc f t sl hsl hslv hv
+    hattrs hft st h hpa
+
+/-- `PM.C11.fit_emitOK_of_inv_partial` with its schema guards discharged for the bundled schema family -/
+theorem fit_emitOK_of_inv_partial (S : Schema) (hS : S ∈ domFamilySchemas) (doc : Node) (f t : Nat) (sl : Slice)
+    (hwf : sl.wf = true) (hslv : openValid S sl.openStart sl.openEnd sl.content = true)
+    (hattrs : S.nodeAttrsOK doc = true) (st : Step) (h : replaceStep S doc f t sl = .ok (some st))
+    (hend : fitEndInv S doc f t sl ≠ some false) (hpa : AroundPayload S doc st) :
+    EmitOK S doc st :=
+  PM.C11.fit_emitOK_of_inv_partial S (family_det _ (domFamily_sub _ hS))
+    (family_fillersOK _ (domFamily_sub _ hS)) (family_leafOk _ (domFamily_sub _ hS))
+    (family_textStableC _ (domFamily_sub _ hS)) (family_closable _ (domFamily_sub _ hS)) doc f t sl hwf hslv
+    hattrs st h hend hpa
+
+/-- `PM.C11.insertInline_valid_partial` with its schema guards discharged for the bundled schema family -/
+theorem insertInline_valid_partial (S : Schema) (hS : S ∈ domFamilySchemas) (doc doc' : Node) (f t : Nat)
+    (sl : Slice) (hsl : sl.inlineLeaves S = true) (hslv : sl.closedValid S = true) (hv : C01.Valid S doc)
+    (hattrs : S.nodeAttrsOK doc = true) (hft : f ≤ t) (st : Step) (h : replaceStep S doc f t sl = .ok (some st))
+    (hpa : AroundPayload S doc st) (ha : S.apply st doc = .ok doc') :
+    C01.Valid S doc' ∧ Kept (ftoks doc.kids) (ftoks doc'.kids) f t (textUnits (sliceToks' sl)) :=
+  PM.C11.insertInline_valid_partial S (family_det _ (domFamily_sub _ hS))
+    (family_fillersOK _ (domFamily_sub _ hS)) (family_wrapOK _ (domFamily_sub _ hS))
+    (family_labelsOK _ (domFamily_sub _ hS)) (family_leafOk _ (domFamily_sub _ hS))
+    (family_textStableC _ (domFamily_sub _ hS)) (family_closable _ (domFamily_sub _ hS)) doc doc' f t sl hsl
+    hslv hv hattrs hft st h hpa ha
+
+/-- `PM.C11.insertInline_total_valid_partial` with its schema guards discharged for the bundled schema family -/
+theorem insertInline_total_valid_partial (S : Schema) (hS : S ∈ domFamilySchemas) (doc : Node) (f t : Nat)
+    (sl : Slice) (hsl : sl.inlineLeaves S = true) (hslv : sl.closedValid S = true) (hv : C01.Valid S doc)
+    (hdoc : C01.IsElem doc) (hattrs : S.nodeAttrsOK doc = true) (htop : S.isTextblockO (S.tyOf doc) = false)
+    (hft : f ≤ t) (ht : t ≤ fsize doc.kids) :
+    replaceStep S doc f t sl = .ok none ∨
+    ∃ st, replaceStep S doc f t sl = .ok (some st) ∧
+    (AroundPayload S doc st →
+    S.apply st doc = .error .failed ∨ S.apply st doc = .error .valueError ∨
+    ∃ doc', S.apply st doc = .ok doc' ∧ C01.Valid S doc' ∧
+    Kept (ftoks doc.kids) (ftoks doc'.kids) f t (textUnits (sliceToks' sl))) :=
+  PM.C11.insertInline_total_valid_partial S (family_det _ (domFamily_sub _ hS))
+    (family_fillersOK _ (domFamily_sub _ hS)) (family_wrapOK _ (domFamily_sub _ hS))
+    (family_labelsOK _ (domFamily_sub _ hS)) (family_leafOk _ (domFamily_sub _ hS))
+    (family_textStableC _ (domFamily_sub _ hS)) (family_closable _ (domFamily_sub _ hS)) doc f t sl hsl hslv hv
+    hdoc hattrs htop hft ht
+
+/-- `PM.C11.replace_valid_of_inv_partial` with its schema guards discharged for the bundled schema family -/
+theorem replace_valid_of_inv_partial (S : Schema) (hS : S ∈ domFamilySchemas) (doc doc' : Node) (f t : Nat)
+    (sl : Slice) (hwf : sl.wf = true) (hslv : openValid S sl.openStart sl.openEnd sl.content = true)
+    (hv : C01.Valid S doc) (hattrs : S.nodeAttrsOK doc = true) (hft : f ≤ t) (st : Step)
+    (h : replaceStep S doc f t sl = .ok (some st)) (hend : fitEndInv S doc f t sl ≠ some false)
+    (hpa : AroundPayload S doc st) (ha : S.apply st doc = .ok doc') :
+    C01.Valid S doc' ∧ Kept (ftoks doc.kids) (ftoks doc'.kids) f t (textUnits (sliceToks' sl)) :=
+  PM.C11.replace_valid_of_inv_partial S (family_det _ (domFamily_sub _ hS))
+    (family_fillersOK _ (domFamily_sub _ hS)) (family_leafOk _ (domFamily_sub _ hS))
+    (family_textStableC _ (domFamily_sub _ hS)) (family_closable _ (domFamily_sub _ hS)) doc doc' f t sl hwf
+    hslv hv hattrs hft st h hend hpa ha
+
+/-- `PM.C11.replaceRange_valid_inline_partial` with its schema guards discharged for the bundled schema family -/
+theorem replaceRange_valid_inline_partial (S : Schema) (hS : S ∈ domFamilySchemas) (doc doc' : Node) (f t : Nat)
+    (sl : Slice) (cs : List (Nat × Nat × Slice)) (hv : C01.Valid S doc) (hattrs : S.nodeAttrsOK doc = true)
+    (hft : f ≤ t) (hwf : sl.wf = true) (h : replaceRangeCalls S doc f t sl = some cs) (c : Nat × Nat × Slice)
+    (hc : c ∈ cs) (hsl : c.2.2.inlineLeaves S = true) (hslv : c.2.2.closedValid S = true) (st : Step)
+    (hst : replaceStep S doc c.1 c.2.1 c.2.2 = .ok (some st)) (hpa : AroundPayload S doc st)
+    (ha : S.apply st doc = .ok doc') :
+    C01.Valid S doc' ∧ Kept (ftoks doc.kids) (ftoks doc'.kids) f t (textUnits (sliceToks' sl)) :=
+  PM.C11.replaceRange_valid_inline_partial S (family_det _ (domFamily_sub _ hS))
+    (family_fillersOK _ (domFamily_sub _ hS)) (family_wrapOK _ (domFamily_sub _ hS))
+    (family_labelsOK _ (domFamily_sub _ hS)) (family_leafOk _ (domFamily_sub _ hS))
+    (family_textStableC _ (domFamily_sub _ hS)) (family_closable _ (domFamily_sub _ hS)) doc doc' f t sl cs hv
+    hattrs hft hwf h c hc hsl hslv st hst hpa ha
+
+/-- `PM.C11.replaceRange_valid_of_inv_partial` with its schema guards discharged for the bundled schema family -/
+theorem replaceRange_valid_of_inv_partial (S : Schema) (hS : S ∈ domFamilySchemas) (doc doc' : Node) (f t : Nat)
+    (sl : Slice) (cs : List (Nat × Nat × Slice)) (hv : C01.Valid S doc) (hattrs : S.nodeAttrsOK doc = true)
+    (hft : f ≤ t) (hwf : sl.wf = true) (h : replaceRangeCalls S doc f t sl = some cs) (c : Nat × Nat × Slice)
+    (hc : c ∈ cs) (hcwf : c.2.2.wf = true)
+    (hslv : openValid S c.2.2.openStart c.2.2.openEnd c.2.2.content = true) (st : Step)
+    (hst : replaceStep S doc c.1 c.2.1 c.2.2 = .ok (some st))
+    (hend : fitEndInv S doc c.1 c.2.1 c.2.2 ≠ some false) (hpa : AroundPayload S doc st)
+    (ha : S.apply st doc = .ok doc') :
+    C01.Valid S doc' ∧ Kept (ftoks doc.kids) (ftoks doc'.kids) f t (textUnits (sliceToks' sl)) :=
+  PM.C11.replaceRange_valid_of_inv_partial S (family_det _ (domFamily_sub _ hS))
+    (family_fillersOK _ (domFamily_sub _ hS)) (family_leafOk _ (domFamily_sub _ hS))
+    (family_textStableC _ (domFamily_sub _ hS)) (family_closable _ (domFamily_sub _ hS)) doc doc' f t sl cs hv
+    hattrs hft hwf h c hc hcwf hslv st hst hend hpa ha
+
+/-- `PM.C11.replaceRangeWith_valid_of_inv_partial` with its schema guards discharged for the bundled schema family -/
+theorem replaceRangeWith_valid_of_inv_partial (S : Schema) (hS : S ∈ domFamilySchemas) (doc doc' : Node)
+    (f t : Nat) (node : Node) (cs : List (Nat × Nat × Slice)) (hv : C01.Valid S doc)
+    (hattrs : S.nodeAttrsOK doc = true) (hft : f ≤ t) (h : replaceRangeWithCalls S doc f t node = some cs)
+    (c : Nat × Nat × Slice) (hc : c ∈ cs) (hcwf : c.2.2.wf = true)
+    (hslv : openValid S c.2.2.openStart c.2.2.openEnd c.2.2.content = true) (st : Step)
+    (hst : replaceStep S doc c.1 c.2.1 c.2.2 = .ok (some st))
+    (hend : fitEndInv S doc c.1 c.2.1 c.2.2 ≠ some false) (hpa : AroundPayload S doc st)
+    (hgap : ∀ F T G1 G2 sl' ins b, st = .replaceAround F T G1 G2 sl' ins b → t ≤ G1)
+    (ha : S.apply st doc = .ok doc') :
+    C01.Valid S doc' ∧ Kept (ftoks doc.kids) (ftoks doc'.kids) f t (textUnits (sliceToks' ⟨[node], 0, 0⟩)) :=
+  PM.C11.replaceRangeWith_valid_of_inv_partial S (family_det _ (domFamily_sub _ hS))
+    (family_fillersOK _ (domFamily_sub _ hS)) (family_leafOk _ (domFamily_sub _ hS))
+    (family_textStableC _ (domFamily_sub _ hS)) (family_closable _ (domFamily_sub _ hS)) doc doc' f t node cs hv
+    hattrs hft h c hc hcwf hslv st hst hend hpa hgap ha
+
+/-- `PM.C11.replaceRangeWith_valid_inline_partial` with its schema guards discharged for the bundled schema family -/
+theorem replaceRangeWith_valid_inline_partial (S : Schema) (hS : S ∈ domFamilySchemas) (doc doc' : Node)
+    (f t : Nat) (node : Node) (hinl : (S.nodeType (S.tyOf node)).isInline = true)
+    (cs : List (Nat × Nat × Slice)) (hv : C01.Valid S doc) (hattrs : S.nodeAttrsOK doc = true) (hft : f ≤ t)
+    (h : replaceRangeWithCalls S doc f t node = some cs) (c : Nat × Nat × Slice) (hc : c ∈ cs)
+    (hsl : c.2.2.inlineLeaves S = true) (hslv : c.2.2.closedValid S = true) (st : Step)
+    (hst : replaceStep S doc c.1 c.2.1 c.2.2 = .ok (some st)) (hpa : AroundPayload S doc st)
+    (ha : S.apply st doc = .ok doc') :
+    C01.Valid S doc' ∧ Kept (ftoks doc.kids) (ftoks doc'.kids) f t (textUnits (sliceToks' ⟨[node], 0, 0⟩)) :=
+  PM.C11.replaceRangeWith_valid_inline_partial S (family_det _ (domFamily_sub _ hS))
+    (family_fillersOK _ (domFamily_sub _ hS)) (family_wrapOK _ (domFamily_sub _ hS))
+    (family_labelsOK _ (domFamily_sub _ hS)) (family_leafOk _ (domFamily_sub _ hS))
+    (family_textStableC _ (domFamily_sub _ hS)) (family_closable _ (domFamily_sub _ hS)) doc doc' f t node hinl
+    cs hv hattrs hft h c hc hsl hslv st hst hpa ha
+
+/-- `PM.C11.aroundPayload_of_norm` with its schema guards discharged for the bundled schema family -/
+theorem aroundPayload_of_norm (S : Schema) (hS : S ∈ domFamilySchemas) (doc : Node) (f t : Nat) (req : Slice)
+    (hv : C01.Valid S doc) (hn : fnorm doc.kids = true) (st : Step)
+    (h : replaceStep S doc f t req = .ok (some st)) (hwf : StepWF st = true)
+    (hp : ∃ sl', st.sliceOf = some sl' ∧ openValid S sl'.openStart sl'.openEnd sl'.content = true)
+    (hsn : ∀ sl', st.sliceOf = some sl' → fnorm sl'.content = true) :
+    AroundPayload S doc st :=
+  PM.C11.aroundPayload_of_norm S (family_textStable _ hS) doc f t req hv hn st h hwf hp hsn
+
+/-- `PM.C11.insertInline_valid_of_norm` with its schema guards discharged for the bundled schema family -/
+theorem insertInline_valid_of_norm (S : Schema) (hS : S ∈ domFamilySchemas) (doc doc' : Node) (f t : Nat)
+    (sl : Slice) (hsl : sl.inlineLeaves S = true) (hslv : sl.closedValid S = true) (hv : C01.Valid S doc)
+    (hn : fnorm doc.kids = true) (hattrs : S.nodeAttrsOK doc = true) (hft : f ≤ t) (st : Step)
+    (h : replaceStep S doc f t sl = .ok (some st))
+    (hsn : ∀ F T G1 G2 sl' ins b, st = .replaceAround F T G1 G2 sl' ins b → fnorm sl'.content = true)
+    (ha : S.apply st doc = .ok doc') :
+    C01.Valid S doc' ∧ Kept (ftoks doc.kids) (ftoks doc'.kids) f t (textUnits (sliceToks' sl)) :=
+  PM.C11.insertInline_valid_of_norm S (family_det _ (domFamily_sub _ hS))
+    (family_fillersOK _ (domFamily_sub _ hS)) (family_wrapOK _ (domFamily_sub _ hS))
+    (family_labelsOK _ (domFamily_sub _ hS)) (family_leafOk _ (domFamily_sub _ hS))
+    (family_textStableC _ (domFamily_sub _ hS)) (family_closable _ (domFamily_sub _ hS))
+    (family_textStable _ hS) doc doc' f t sl hsl hslv hv hn hattrs hft st h hsn ha
+
+/-- `PM.C11.replace_valid_of_inv_of_norm` with its schema guards discharged for the bundled schema family -/
+theorem replace_valid_of_inv_of_norm (S : Schema) (hS : S ∈ domFamilySchemas) (doc doc' : Node) (f t : Nat)
+    (sl : Slice) (hwf : sl.wf = true) (hslv : openValid S sl.openStart sl.openEnd sl.content = true)
+    (hv : C01.Valid S doc) (hn : fnorm doc.kids = true) (hattrs : S.nodeAttrsOK doc = true) (hft : f ≤ t)
+    (st : Step) (h : replaceStep S doc f t sl = .ok (some st)) (hend : fitEndInv S doc f t sl ≠ some false)
+    (hsn : ∀ F T G1 G2 sl' ins b, st = .replaceAround F T G1 G2 sl' ins b → fnorm sl'.content = true)
+    (ha : S.apply st doc = .ok doc') :
+    C01.Valid S doc' ∧ Kept (ftoks doc.kids) (ftoks doc'.kids) f t (textUnits (sliceToks' sl)) :=
+  PM.C11.replace_valid_of_inv_of_norm S (family_det _ (domFamily_sub _ hS))
+    (family_fillersOK _ (domFamily_sub _ hS)) (family_leafOk _ (domFamily_sub _ hS))
+    (family_textStableC _ (domFamily_sub _ hS)) (family_closable _ (domFamily_sub _ hS))
+    (family_textStable _ hS) doc doc' f t sl hwf hslv hv hn hattrs hft st h hend hsn ha
 
 /-- `PM.C11.fit_emits_valid_payload` with its schema guards discharged for the bundled schema family -/
 theorem fit_emits_valid_payload (S : Schema) (hS : S ∈ domFamilySchemas) (doc : Node) (f t : Nat) (sl : Slice)
